@@ -21,6 +21,9 @@ def natArg (s : String) : Option Nat := s.toNat?
 
 def intArg (s : String) : Option Int := s.toInt?
 
+/-- hex, with `-` for the empty string (a trace field is never empty) -/
+def hexOrDash (bs : Bytes) : String := if bs.isEmpty then "-" else toHex bs
+
 def hex32 (v : UInt32) : String := toHex (be32 v)
 def hex16 (v : UInt16) : String := toHex (be16 v)
 
